@@ -94,8 +94,9 @@ def joinTwoVertices (m : Mesh) (pair : Id × Id) (mapper : List (Id × Id)) :
   | some i0, some i1 =>
     match m.vertex? i0, m.vertex? i1 with
     | some v0, some v1 =>
-      let xcm := (if v0.x + v1.x < 0 then -(v0.x + v1.x) else v0.x + v1.x) / 2
-      let ycm := (if v0.y + v1.y < 0 then -(v0.y + v1.y) else v0.y + v1.y) / 2
+      -- midpoint (after the repair of finding D12; upstream took `abs(v0.x + v1.x) / 2`)
+      let xcm := (v0.x + v1.x) / 2
+      let ycm := (v0.y + v1.y) / 2
       match (listInter v0.ownEdges v1.ownEdges).head? with
       | none => .error .indexError
       | some common =>
